@@ -180,15 +180,16 @@ def hsStep (c : Conn) (b : Bytes) : Option (Conn × Nat) :=
     if b.length < n then none else some (kdf P c, n)
   | _ => none
 
-/-- let the pending `io.ReadFull` complete if the queued bytes allow -/
-def progress1 (cq : Conn × Net) : Conn × Net :=
-  match hsStep P cq.1 cq.2.flatten with
-  | none => cq
-  | some (c', n) => (c', Net.dropBytes n cq.2)
+/-- let up to `k` pending `io.ReadFull`s complete, as far as the queued bytes allow -/
+def progressN : Nat → Conn × Net → Conn × Net
+  | 0, cq => cq
+  | k + 1, cq =>
+    match hsStep P cq.1 cq.2.flatten with
+    | none => cq
+    | some (c', n) => progressN k (c', Net.dropBytes n cq.2)
 
 /-- run the pending `ReadFull`s as far as the queued bytes allow (at most seed, header, padding) -/
-def progress (c : Conn) (q : Net) : Conn × Net :=
-  progress1 P (progress1 P (progress1 P (c, q)))
+def progress (c : Conn) (q : Net) : Conn × Net := progressN P 3 (c, q)
 
 /-- chunks arrive one after the other; after each arrival the handshake runs as far as it can -/
 def feedAll (c : Conn) (q : Net) : List Bytes → Conn × Net
